@@ -132,7 +132,7 @@ impl Property for C17 {
     }
 
     fn budget(tier: Tier) -> u64 {
-        tier.pick(4000, 120_000)
+        tier.pick(4000, 40_000)
     }
 
     fn rule() -> &'static str {
